@@ -325,7 +325,24 @@ func unmarshalSourceFile(source string) (*sourceFile, error) {
 	if len(file.RelPath) < 1 {
 		return nil, simpleTrzszError("Invalid source file: %s", source)
 	}
+	for _, name := range file.RelPath {
+		if !isSafeFileName(name) {
+			return nil, simpleTrzszError("Invalid source file: %s", source)
+		}
+	}
 	return &file, nil
+}
+
+// isSafeFileName returns whether a name supplied by the peer is a single path element,
+// that can't lead outside of the directory it is joined to.
+func isSafeFileName(name string) bool {
+	if name == "" || name == "." || name == ".." {
+		return false
+	}
+	if strings.ContainsRune(name, '/') || strings.ContainsRune(name, filepath.Separator) {
+		return false
+	}
+	return filepath.VolumeName(name) == ""
 }
 
 type targetFile struct {
